@@ -382,12 +382,16 @@ func (c *c20) streamRun(r *det.Rng) {
 		got      []*si.EventRecord
 		lastSeen atomic.Pointer[si.EventRecord]
 		wg       sync.WaitGroup
+		early    time.Duration // > 0: the subscriber goes away while events are still being published
 	}
 	subs := make([]*sub, nSubs)
 	var wg sync.WaitGroup
 	for i := range subs {
 		s := &sub{count: uint64(r.Intn(int(capacity) + 4))}
 		wait := time.Duration(r.Intn(3000)) * time.Microsecond
+		if i == 0 && r.Chance(500) {
+			s.early = time.Duration(1+r.Intn(2000)) * time.Microsecond
+		}
 		subs[i] = s
 		wg.Add(1)
 		go func() {
@@ -409,6 +413,10 @@ func (c *c20) streamRun(r *det.Rng) {
 					progress.Add(1)
 				}
 			}()
+			if s.early > 0 {
+				time.Sleep(s.early)
+				streaming.RemoveEventStream(s.stream)
+			}
 		}()
 	}
 	rs := make([]uint64, resizes)
@@ -432,7 +440,7 @@ func (c *c20) streamRun(r *det.Rng) {
 	for time.Now().Before(deadline) {
 		allDone := true
 		for _, s := range subs {
-			if s.lastSeen.Load() != last {
+			if s.early == 0 && s.lastSeen.Load() != last {
 				allDone = false
 			}
 		}
@@ -457,11 +465,14 @@ func (c *c20) streamRun(r *det.Rng) {
 		idx[e] = i
 	}
 	c.obs["c20.stream_runs"]++
-	for _, s := range subs {
+	for si, s := range subs {
 		c.obs["c20.subscribers"]++
 		c.obs["c20.stream_events_received"] += int64(len(s.got))
+		if s.early > 0 {
+			c.obs["c20.subscribers_removed_while_publishing"]++
+		}
 		if len(s.got) == 0 {
-			if s.n1 < total {
+			if s.n1 < total && s.early == 0 {
 				c.bad("stream-missed-events", "empty", "subscriber created when %d..%d of %d events were published received nothing", s.n0, s.n1, total)
 			}
 			continue
@@ -471,7 +482,11 @@ func (c *c20) streamRun(r *det.Rng) {
 		for i, e := range s.got {
 			id, ok := idx[e]
 			if !ok {
-				c.bad("stream-unknown-event", "plain", "subscriber received an event that was never published")
+				what := "nil"
+				if e != nil {
+					what = fmt.Sprintf("%s (timestamp %d)", e.ObjectID, e.TimestampNano)
+				}
+				c.bad("stream-unknown-event", "plain", "subscriber %d/%d (history %d, created when %d..%d of %d events were published) received at position %d of %d an event that was never published: %s", si+1, len(subs), s.count, s.n0, s.n1, total, i, len(s.got), what)
 				okSeq = false
 				break
 			}
@@ -490,7 +505,7 @@ func (c *c20) streamRun(r *det.Rng) {
 			continue
 		}
 		first := idx[s.got[0]]
-		if s.got[len(s.got)-1] != last {
+		if s.early == 0 && s.got[len(s.got)-1] != last {
 			c.bad("stream-missed-events", "tail", "subscriber (history %d, created at %d..%d) stopped at id %d of %d although it was never closed before the end", s.count, s.n0, s.n1, prev, total-1)
 		}
 		if first > s.n1 {
